@@ -66,6 +66,7 @@ def vary(tokens, rng):
 
 class PROP(PropCheck):
     id = "C06"
+    mismatch_is_failure = False
     theorems = ["C06_keywords_both_cases", "C06_end_set_is_reference", "C06_trivia_produces_no_token", "C06_newline_after_ender_terminates", "C06_semicolon_is_terminator",
                 "C06_lex_render", "C06_layouts_same_views", "C06_keyword_case_same_view", "C06_layout_example", "C06_parse_view",
                 "C06_eval_span_invariant", "C06_layout_never_changes_meaning", "C06_same_views_same_meaning"]
